@@ -387,6 +387,17 @@ def part_b(chk: Check, rnd: random.Random, thorough: bool) -> None:
             elif r >= 0.4:
                 sent.append(fr)
             fg.append((gap, fr))
+            # ... the controller announces one zone of an array again, with other values, within the 3 s in which a second
+            # packet of that code is taken for the array's second part: the later announcement is the zone's value
+            if fr is not None and r >= 0.4 and fr[17:26] == "--:------" and fr[37:41] in ("000A", "2309", "30C9") and len(fr) > 46 + 12 and rnd.random() < 0.35:
+                code = fr[37:41]
+                el = 12 if code == "000A" else 6
+                z = rnd.choice([fr[46 + i:46 + i + 2] for i in range(0, len(fr) - 46, el)])
+                for _try in range(40):
+                    fr2 = gen_ctl_frame(rnd, CTL)
+                    if fr2[:2] == " I" and fr2[37:41] == code and len(fr2) == 46 + el and fr2[46:48] == z:
+                        fg.append((rnd.choice((0.05, 0.5, 1.5, 2.9, 3.1)), fr2))
+                        break
             # ... and now and then the very next frame arrives in the same serial read: the same zone and code again, as the
             # other of announcement / reply, with another value
             if fr is not None and r >= 0.4 and rnd.random() < 0.12 and fr[17:26] == "--:------" and len(fr) < 64 and fr[37:41] in ("30C9", "2309", "2349", "12B0", "000A"):
